@@ -1,8 +1,8 @@
 package props
 
 import (
-	"crypto/rsa"
 	"bytes"
+	"crypto/rsa"
 	"crypto/x509"
 	"fmt"
 	mrand "math/rand"
